@@ -1226,6 +1226,48 @@ func (e *c14Env) runImage(c *vlib.Case, run *vlib.Run, sp *c14Spec) {
 	if run.WantSample() && len(img.listed) >= 2 && len(img.listed) <= 5 && len(img.expSkip) > 0 {
 		run.Sample(map[string]interface{}{"idx": c.Idx, "spec": sp, "expected_table_map": c14Hex(img.expMap), "observed_table_map": c14Hex(gotMap), "init_log": log.String()})
 	}
+
+	// ---- phase 3 (one case in four): the same driver enumerates a second time after one table that was
+	// valid has gone bad. "Registered if and only if the bytes sum to zero" holds for what the second
+	// enumeration leaves behind as it does for the first.
+	if e.hard || off152 || c.Idx%4 != 0 {
+		return
+	}
+	var victim *c14Obj
+	for _, o := range img.listed {
+		if o.Role == "table" && !o.Bad && img.expMap[o.Sig] == o.Addr {
+			victim = o
+		}
+	}
+	if victim == nil {
+		return
+	}
+	m.all(syscall.PROT_READ | syscall.PROT_WRITE)
+	vlib.BytesAt(victim.Addr, victim.Len)[victim.Len-1] ^= 0x10
+	m.all(syscall.PROT_NONE)
+	var log2 bytes.Buffer
+	pv, st = vlib.Protect(func() { ierr = drv.DriverInit(&log2) })
+	e.count("second_enumerations_on_the_same_driver", 1)
+	if pv != nil {
+		sig, det := e.classify(img, "reinit", pv, st)
+		e.viol(c, sig, det)
+		return
+	}
+	if ierr != nil {
+		e.violf(c, "reinit:error-returned", "second DriverInit returned %q", ierr.Message)
+		return
+	}
+	if h, ok := drv.tableMap[victim.Sig]; ok {
+		e.violf(c, "reinit:registered-table-with-bad-checksum", "%s at %#x was valid during the first enumeration, then its last byte was changed; after the second enumeration on the same driver it is still registered (at %#x); log of the second enumeration:\n%s", victim.Sig, victim.Addr, uintptr(unsafe.Pointer(h)), log2.String())
+	}
+	for sig, addr := range img.expMap {
+		if sig == victim.Sig {
+			continue
+		}
+		if h, ok := drv.tableMap[sig]; !ok || uintptr(unsafe.Pointer(h)) != addr {
+			e.violf(c, "reinit:missing-valid-table", "%s at %#x is valid but not registered (or at another address) after the second enumeration; registered: %d tables", sig, addr, len(drv.tableMap))
+		}
+	}
 }
 
 func (img *c14Image) pos(sig string) int {
@@ -1294,7 +1336,7 @@ func c14Hex(m map[string]uintptr) map[string]string {
 func TestVerifC14(t *testing.T) {
 	run := vlib.Start(t, "C14")
 	defer run.Finish()
-	run.SetRule("case = one firmware memory image generated from (seed, index): search area of 1/2/4/32 pages ending at a guard page (sometimes starting mid-page), root pointer of revision 0/1/2/3 at the first / last-fitting / a random 16-byte slot (or absent), 0-3 look-alikes at lower addresses (bad 20-byte sum, bad 36-byte sum, only extended sum bad, near-miss signature, valid but misaligned), sometimes a second valid root pointer at a higher address; root table (RSDT 4-byte entries for revision 0, XSDT 8-byte otherwise) listing 0-12 tables with distinct signatures, each placed page-start / page-end / header- or body-straddling a page boundary / packed / random, each possibly with one changed byte (checksum byte, last byte, header, body, FADT DSDT pointer); FADT with 32-bit, 64-bit or both DSDT pointers; DSDT sometimes also listed, sometimes present but unreferenced. non-trivial = no violation, >=1 listed table and at least one of {look-alike below the root pointer, corrupted table, FADT}; distinct = fingerprint of (revision, slot, area size, look-alikes, FADT mode, ordered list of (signature, length, placement, corrupted))")
+	run.SetRule("case = one firmware memory image generated from (seed, index): search area of 1/2/4/32 pages ending at a guard page (sometimes starting mid-page), root pointer of revision 0/1/2/3 at the first / last-fitting / a random 16-byte slot (or absent), 0-3 look-alikes at lower addresses (bad 20-byte sum, bad 36-byte sum, only extended sum bad, near-miss signature, valid but misaligned), sometimes a second valid root pointer at a higher address; root table (RSDT 4-byte entries for revision 0, XSDT 8-byte otherwise) listing 0-12 tables with distinct signatures, each placed page-start / page-end / header- or body-straddling a page boundary / packed / random, each possibly with one changed byte (checksum byte, last byte, header, body, FADT DSDT pointer); FADT with 32-bit, 64-bit or both DSDT pointers; DSDT sometimes also listed, sometimes present but unreferenced; one case in four then changes the last byte of a registered table and enumerates again on the same driver. non-trivial = no violation, >=1 listed table and at least one of {look-alike below the root pointer, corrupted table, FADT}; distinct = fingerprint of (revision, slot, area size, look-alikes, FADT mode, ordered list of (signature, length, placement, corrupted))")
 	run.Assume("mapFn/unmapFn/identityMapFn are replaced by a simulated MMU (mprotect on the image pages): identityMapFn(frame, size) maps ceil(size/4096) pages starting at frame, as documented for vmm.IdentityMapRegion; pages outside the image are only counted")
 	run.Assume("a root pointer of revision >= 1 is valid when its 36 bytes sum to 0 (DESIGN C14); generated ones also have a valid 20-byte sum; look-alikes whose validity depends on which of the two sums is used are not generated")
 	run.Assume("not generated (outside the statement): corrupt root table, FADT whose DSDT pointer for the revision in use is zero (revision 0: 32-bit field, revision >= 2: 64-bit field, revision 1: both fields equal), corrupted length field, duplicate signatures")
